@@ -244,6 +244,15 @@ func Destroy() {
 	for _, a := range global.appenders {
 		a.Stop()
 	}
+
+	// Nothing may keep logging into stopped loggers:
+	// tags and named handles fall back to the default logger.
+	for _, t := range tagRegistry {
+		t.logger = nil
+	}
+	for _, l := range loggerMap {
+		l.logger = nil
+	}
 	global.loggers = nil
 	global.appenders = nil
 	global.init = false
